@@ -60,6 +60,8 @@ WEAK void hk_dead_end(void)
 WEAK void hk_write(int fd, const void *b, size_t n, long r, int e, int nb) { (void)fd; (void)b; (void)n; (void)r; (void)e; (void)nb; }
 WEAK void hk_read(int fd, const void *b, size_t n, long r, int e) { (void)fd; (void)b; (void)n; (void)r; (void)e; }
 WEAK void hk_close(int fd) { (void)fd; }
+WEAK void hk_write_pre(int fd) { (void)fd; }
+WEAK void hk_read_pre(int fd) { (void)fd; }
 WEAK void hk_splice(int fi, int fo, size_t n, long r, int e) { (void)fi; (void)fo; (void)n; (void)r; (void)e; }
 WEAK void hk_wait4(pid_t a, int o, pid_t r, int s) { (void)a; (void)o; (void)r; (void)s; }
 WEAK void hk_kill(pid_t p, int s, int r, int e) { (void)p; (void)s; (void)r; (void)e; }
@@ -179,14 +181,20 @@ void vt_activity(void) { atomic_fetch_add(&epoch, 1); }
 /* ---- perturbation ------------------------------------------------------ */
 static void perturb(void)
 {
-	struct vthr *t;
+	static __thread uint64_t tl_rng, tl_rng_case;
 	uint64_t r;
 	unsigned bias;
 
 	if (!perturb_level || in_child || vt_no_perturb)
 		return;
-	t = &thr[vt_self()];
-	r = xs(&t->rng);
+	if (tl_rng_case != case_seed || !tl_rng) {
+		/* thread-local generator, re-seeded per case; never allocates a thread slot (may run in a signal handler on a thread that has none yet) */
+		tl_rng_case = case_seed;
+		tl_rng = (case_seed * 0x9E3779B97F4A7C15ULL) ^ ((uint64_t)(uintptr_t)&tl_rng << 17) ^ 0x5DEECE66DULL;
+		if (!tl_rng)
+			tl_rng = 1;
+	}
+	r = xs(&tl_rng);
 	/* swarm-style per-case bias derived from the case seed: 0 quiet, 1 yields, 2 sleeps, 3 heavy */
 	bias = (unsigned)((case_seed >> 3) & 3);
 	switch (bias) {
@@ -403,7 +411,8 @@ static void *thread_tramp(void *v)
 	struct tramp tr = *(struct tramp *)v;
 
 	free(v);
-	my_slot = slot_alloc();		/* already counted as running by the creator */
+	if (my_slot < 0)		/* (a signal handler that ran on this new thread may already have given it a slot) */
+		my_slot = slot_alloc();	/* already counted as running by the creator */
 	thr[my_slot].pth = pthread_self();
 	thr[my_slot].detached = 0;
 	thr[my_slot].has_pth = 1;
@@ -1046,8 +1055,13 @@ int __wrap_close(int fd)
 
 long __wrap_read(int fd, void *buf, size_t n)
 {
-	long r = __real_read(fd, buf, n);
-	int e = errno;
+	long r;
+	int e;
+
+	if (!in_child)
+		hk_read_pre(fd);
+	r = __real_read(fd, buf, n);
+	e = errno;
 	if (fd >= 0 && fd < MAXFD && vtfd[fd].used && r > 0)
 		vtfd[fd].fired = 0;
 	if (!in_child)
@@ -1063,6 +1077,8 @@ long __wrap_write(int fd, const void *buf, size_t n)
 
 	perturb();
 	fl = fcntl(fd, F_GETFL);
+	if (!in_child)
+		hk_write_pre(fd);
 	r = __real_write(fd, buf, n);
 	e = errno;
 	if (!in_child)
@@ -1124,6 +1140,13 @@ static void sig_tramp(int signum)
 {
 	int e = errno;
 
+	if (in_child) {
+		/* a forked child is not part of the monitored process: just behave like the library's handler */
+		if (signum >= 0 && signum < 65 && sig_real[signum] != NULL)
+			sig_real[signum](signum);
+		errno = e;
+		return;
+	}
 	atomic_fetch_add(&running, 1);
 	atomic_fetch_add(&epoch, 1);
 	vt_stats.sig_deliveries++;
